@@ -178,3 +178,63 @@ Lemma witness_wide :
   | RErr _ => false
   end = true.
 Proof. vm_compute. split; reflexivity. Qed.
+
+(* ------------------------------------------------------------------ range of a feature with several locations *)
+From Coq Require Import Permutation.
+Lemma fold_min_spec l : forall a, let m := fold_left Nat.min l a in
+  m <= a /\ (forall x, In x l -> m <= x) /\ (m = a \/ In m l).
+Proof.
+  induction l as [|y l IH]; intros a; cbn [fold_left]; [repeat split; [lia|intros x []|left; reflexivity]|].
+  destruct (IH (Nat.min a y)) as (A & B & C). cbv zeta. split; [lia|]. split.
+  - intros x [<-|Hx]; [lia|apply B, Hx].
+  - destruct C as [C|C]; [|right; right; exact C]. destruct (Nat.min_dec a y) as [E|E]; rewrite E in *; [left; exact C|right; left; symmetry; exact C].
+Qed.
+Lemma fold_max_spec l : forall a, let m := fold_left Nat.max l a in
+  a <= m /\ (forall x, In x l -> x <= m) /\ (m = a \/ In m l).
+Proof.
+  induction l as [|y l IH]; intros a; cbn [fold_left]; [repeat split; [lia|intros x []|left; reflexivity]|].
+  destruct (IH (Nat.max a y)) as (A & B & C). cbv zeta. split; [lia|]. split.
+  - intros x [<-|Hx]; [lia|apply B, Hx].
+  - destruct C as [C|C]; [|right; right; exact C]. destruct (Nat.max_dec a y) as [E|E]; rewrite E in *; [left; exact C|right; left; symmetry; exact C].
+Qed.
+(* start = minimum of the starts, stop = maximum of the stops *)
+Theorem range_spec locs : locs <> [] ->
+  (forall x, In x locs -> range_start locs <= l_start x /\ l_stop x <= range_stop locs)
+  /\ (exists x, In x locs /\ l_start x = range_start locs) /\ (exists x, In x locs /\ l_stop x = range_stop locs).
+Proof.
+  destruct locs as [|x0 r]; [congruence|]. intros _. cbn [range_start range_stop].
+  destruct (fold_min_spec (map l_start r) (l_start x0)) as (A1 & A2 & A3).
+  destruct (fold_max_spec (map l_stop r) (l_stop x0)) as (B1 & B2 & B3). cbv zeta in *. split; [|split].
+  - intros x [<-|Hx]; [split; assumption|]. split; [apply A2, in_map, Hx|apply B2, in_map, Hx].
+  - destruct A3 as [E|E]; [exists x0; split; [left; reflexivity|symmetry; exact E]|].
+    apply in_map_iff in E. destruct E as (x & E & Hx). exists x. split; [right; exact Hx|exact E].
+  - destruct B3 as [E|E]; [exists x0; split; [left; reflexivity|symmetry; exact E]|].
+    apply in_map_iff in E. destruct E as (x & E & Hx). exists x. split; [right; exact Hx|exact E].
+Qed.
+(* ... hence independent of the order of the locations, and the feature fts2row draws has exactly this range *)
+Theorem range_perm locs locs' : Permutation locs locs' -> range_start locs = range_start locs' /\ range_stop locs = range_stop locs'.
+Proof.
+  intros P. destruct locs as [|x0 r].
+  - apply Permutation_nil in P. subst. split; reflexivity.
+  - assert (N1 : x0 :: r <> []) by discriminate.
+    assert (N2 : locs' <> []) by (intros E; subst; apply Permutation_sym, Permutation_nil in P; discriminate).
+    destruct (range_spec _ N1) as (A & (a & Ha & Ea) & (b & Hb & Eb)).
+    destruct (range_spec _ N2) as (A' & (a' & Ha' & Ea') & (b' & Hb' & Eb')).
+    pose proof (A' a (Permutation_in _ P Ha)) as [X1 _]. pose proof (A a' (Permutation_in _ (Permutation_sym P) Ha')) as [X2 _].
+    pose proof (A' b (Permutation_in _ P Hb)) as [_ Y1]. pose proof (A b' (Permutation_in _ (Permutation_sym P) Hb')) as [_ Y2].
+    split; lia.
+Qed.
+Lemma sort_locs_ne minus locs : locs <> [] -> sort_locs minus locs <> [].
+Proof.
+  unfold sort_locs. assert (G : forall l acc, (acc <> [] \/ l <> []) -> fold_left (fun a x => ins_loc minus x a) l acc <> []).
+  { induction l as [|x l IH]; intros acc H; cbn [fold_left]; [destruct H; congruence|]. apply IH. left.
+    destruct acc as [|y acc]; cbn [ins_loc]; [discriminate|]. destruct (if minus then _ else _); discriminate. }
+  intros H. apply G. right. exact H.
+Qed.
+Theorem multi_ft_range name minus locs : locs <> [] ->
+  f_start (multi_ft name minus locs) = range_start locs /\ f_stop (multi_ft name minus locs) = range_stop locs
+  /\ f_name (multi_ft name minus locs) = name.
+Proof.
+  intros H. unfold multi_ft. pose proof (sort_locs_ne minus locs H) as N. destruct (sort_locs minus locs); [congruence|].
+  repeat split.
+Qed.
